@@ -5,32 +5,64 @@ From SasLexer Require Import Gen.TokenType Gen.ErrorKind Gen.Channel Model.Base 
 Import ListNotations.
 Open Scope N_scope.
 
-Lemma lex_state_InvPos cfg src : InvPos src (lr_state (lex cfg src)).
+(** the mark's extent and the text after it *)
+Lemma split_bom_spec src bb bc text :
+  split_bom src = ((bb, bc), text) -> exists pre, src = pre ++ text /\ blen pre = bb /\ len pre = bc.
 Proof.
-  unfold lex.
-  pose proof (run_InvPos (dbg cfg) src
-               (main_loop (S (List.length src)) (msep cfg) (8 * (4 * List.length src) + 64 + 2)%nat)
-               (init src) (init_InvPos src)) as H1.
-  destruct (run (dbg cfg) _ (init src)) as [det s1|site s1]; cbn [res_inv] in H1; [|exact H1].
-  destruct det; [exact H1|].
-  pose proof (run_InvPos (dbg cfg) src (finalize_lexing (S (S (N.to_nat (s_nmodes s1))))) s1 H1) as H2.
-  destruct (run (dbg cfg) (finalize_lexing _) s1) as [u s2|site s2]; exact H2.
+  unfold split_bom. destruct src as [|c r].
+  - intros H; inversion H; subst. exists []. repeat split.
+  - destruct (c =? BOM); intros H; inversion H; subst.
+    + exists [c]. repeat split. cbn [blen]. lia.
+    + exists []. repeat split.
 Qed.
 
-Lemma lex_buffer_errors cfg src :
-  lr_buffer (lex cfg src) = into_detached (lr_state (lex cfg src)) /\
-  lr_errors (lex cfg src) = rev (s_errs (lr_state (lex cfg src))).
+Lemma IsPos_shift src pre text b c :
+  src = pre ++ text -> IsPos text b c -> IsPos src (b + blen pre) (c + len pre).
 Proof.
-  unfold lex.
-  destruct (run (dbg cfg) _ (init src)) as [det s1|site s1]; [|split; reflexivity].
-  destruct det; [split; reflexivity|].
-  destruct (run (dbg cfg) (finalize_lexing _) s1); split; reflexivity.
+  intros -> (p & q & -> & <- & <-). exists (pre ++ p), q.
+  rewrite app_assoc, blen_app, len_app'. repeat split; lia.
 Qed.
 
-Lemma into_detached_toks_pos src s :
-  InvPos src s -> Forall (tok_pos src) (b_toks (into_detached s)).
+Section Text.
+  Variable cfg : config.
+  Variables bb bc : N.
+  Variable text : list char.
+
+  Lemma lex_text_state_InvPos : InvPos text (lr_state (lex_text cfg bb bc text)).
+  Proof.
+    unfold lex_text.
+    match goal with |- context [run (dbg cfg) ?ml (init text)] => set (mlp := ml) end.
+    pose proof (run_InvPos (dbg cfg) text mlp (init text) (init_InvPos text)) as H1.
+    destruct (run (dbg cfg) mlp (init text)) as [det s1|site s1]; cbn [res_inv] in H1; [|exact H1].
+    destruct det; [exact H1|].
+    pose proof (run_InvPos (dbg cfg) text (finalize_lexing (S (S (N.to_nat (s_nmodes s1))))) s1 H1) as H2.
+    destruct (run (dbg cfg) (finalize_lexing _) s1) as [u s2|site s2]; exact H2.
+  Qed.
+
+  Lemma lex_text_buffer_errors :
+    lr_buffer (lex_text cfg bb bc text) = into_detached bb bc (lr_state (lex_text cfg bb bc text)) /\
+    lr_errors (lex_text cfg bb bc text) = map (shift_err bb bc) (rev (s_errs (lr_state (lex_text cfg bb bc text)))).
+  Proof.
+    unfold lex_text.
+    destruct (run (dbg cfg) _ (init text)) as [det s1|site s1]; [|split; reflexivity].
+    destruct det; [split; reflexivity|].
+    destruct (run (dbg cfg) (finalize_lexing _) s1); split; reflexivity.
+  Qed.
+End Text.
+
+(** the unshifted tokens of the detached buffer *)
+Definition detached_toks (s : st) : list tok :=
+  let b := s_buf s in
+  let lines := match w_lines b with [] => [mkLine 0 0] | l => rev l end in
+  if match w_toks b with t :: _ => tt_eqb (t_type t) T_EOF | [] => false end then rev (w_toks b)
+  else rev (mkTok CH_DEFAULT T_EOF (s_srclen s) (len (s_src s)) (len lines - 1) PNone :: w_toks b).
+
+Lemma into_detached_toks bb bc s : b_toks (into_detached bb bc s) = map (shift_tok bb bc) (detached_toks s).
+Proof. unfold into_detached, detached_toks. cbn [b_toks]. destruct (match w_toks (s_buf s) with _ => _ end); reflexivity. Qed.
+
+Lemma detached_toks_pos text s : InvPos text s -> Forall (tok_pos text) (detached_toks s).
 Proof.
-  intros I. unfold into_detached. cbn [b_toks].
+  intros I. unfold detached_toks.
   pose proof (ip_toks _ _ I) as Ht.
   destruct (match w_toks (s_buf s) with t :: _ => tt_eqb (t_type t) T_EOF | [] => false end).
   - apply Forall_rev. exact Ht.
@@ -42,8 +74,14 @@ Theorem lex_positions cfg src :
   Forall (tok_pos src) (b_toks (lr_buffer (lex cfg src))) /\
   Forall (err_pos src) (lr_errors (lex cfg src)).
 Proof.
-  destruct (lex_buffer_errors cfg src) as [-> ->].
-  pose proof (lex_state_InvPos cfg src) as I. split.
-  - apply into_detached_toks_pos. exact I.
-  - apply Forall_rev. apply (ip_errs _ _ I).
+  unfold lex. destruct (split_bom src) as [[bb bc] text] eqn:Es.
+  destruct (split_bom_spec _ _ _ _ Es) as (pre & E & Hb & Hc).
+  destruct (lex_text_buffer_errors cfg bb bc text) as [-> ->].
+  pose proof (lex_text_state_InvPos cfg bb bc text) as I. split.
+  - rewrite into_detached_toks. apply Forall_map.
+    eapply Forall_impl; [|apply detached_toks_pos; exact I].
+    intros t P. unfold tok_pos, shift_tok. cbn [t_byte t_start]. subst bb bc. apply (IsPos_shift src pre text); assumption.
+  - apply Forall_map. apply Forall_rev.
+    eapply Forall_impl; [|apply (ip_errs _ _ I)].
+    intros e P. unfold err_pos, shift_err. cbn [e_byte e_char]. subst bb bc. apply (IsPos_shift src pre text); assumption.
 Qed.
